@@ -112,3 +112,34 @@ pub fn rng_seen() -> RngSeen {
 pub fn affine_of(pk: &Sm2PublicKey) -> r2::Pt {
     r2::from_lib_point(&pk.point)
 }
+
+/// Key objects by provenance: 0 = validating constructors (affine public point), 1 = `gen_keypair()` with the
+/// scalar injected at the RNG hook (public point as the library's own multiplication leaves it, Z != 1),
+/// 2 = public fields filled directly with a re-randomised Jacobian representation of [d]G.
+pub fn lib_keys(d: &BigUint, how: u64, p: &mut Prng) -> Option<(Sm2PublicKey, Sm2PrivateKey)> {
+    match how % 3 {
+        0 => {
+            let sk = lib_sk(d)?;
+            Some((sk.public_key, sk))
+        }
+        1 => {
+            rng_prepare(&[d]);
+            let r = guard(|| gm_sm2::key::gen_keypair());
+            let seen = rng_seen();
+            match r {
+                Outcome::Ret(Ok((pk, sk))) if seen.accepted.last() == Some(d) => Some((pk, sk)),
+                _ => None,
+            }
+        }
+        _ => {
+            let pt = r2::mul(d, &r2::g())?;
+            let lam = rand_scalar(p, &r2::curve().p);
+            let pk = Sm2PublicKey { point: r2::to_lib_point(&pt, &lam) };
+            Some((pk, Sm2PrivateKey { d: r2::to_limbs(d), public_key: pk }))
+        }
+    }
+}
+
+pub fn provenance(how: u64) -> &'static str {
+    ["key_from_constructor", "key_from_gen_keypair", "key_with_jacobian_public_point"][(how % 3) as usize]
+}
